@@ -389,6 +389,12 @@ class SymNP:
             out = out.view(SymArray)
             out._kind = "i"
             return out
+        if dtype is object or dtype == np.dtype(object):
+            # an explicit object array (e.g. words of a text table collected before conversion): keep it convertible
+            out = np.empty(shape, dtype=object)
+            if value != 0.0:
+                out[...] = value
+            return out.view(SymArray)
         return None
 
     def zeros(self, shape, dtype=None, **kw):
